@@ -113,7 +113,8 @@ prop("C07", "nitrocheck",
 
 prop("C18", "slcheck",
      [dict(name="TestC18Builder", quick=5000, thorough=30000),
-      dict(name="TestC18Merger", quick=10000, thorough=60000)],
+      dict(name="TestC18Merger", quick=10000, thorough=60000),
+      dict(name="FuzzC18Merger", fuzz=60)],
      rule="Builder: 0-8 segments (empty ones anywhere, sizes 0-40, ascending items across the concatenation), filled sequentially or by one goroutine per segment, "
           "assembled; oracle: scan == concatenation, structural walk of every level (C14 predicate) and statistics == walk, Lookup of every value in range, then 0-30 "
           "generated Insert/Delete against a set model, scan/walk/statistics again. Non-trivial builder case: >=2 non-empty segments with an empty one before/between them "
@@ -127,7 +128,9 @@ prop("C18", "slcheck",
 
 prop("C19", "nitrocheck",
      [dict(name="TestC19", quick=700, thorough=8000),
-      dict(name="TestC19KV", quick=2000, thorough=40000)],
+      dict(name="TestC19KV", quick=2000, thorough=40000),
+      dict(name="FuzzC19Decode", fuzz=90),
+      dict(name="FuzzC19KV", fuzz=60)],
      rule="Item sequences (0-12 items; lengths biased to 1-40 with spikes at 255/256/257/65535/65536/65537 and up to 200 KiB; contents biased to zero runs, "
           "00 00 00 nn length look-alikes, 0xFF, pseudo-random), DiskBlockSize drawn from 5/16/64/4096/512K: (a) real file writer -> file -> real reader: same sequence "
           "then end-of-stream, reader checksum == writer checksum == independent XOR-of-CRC32 formula; (b) harness-framed older format (2-byte length) -> reader(v0); "
@@ -141,7 +144,8 @@ prop("C19", "nitrocheck",
 
 prop("C20", "ntcheck",
      [dict(name="TestC20Table", quick=10000, thorough=60000, steps=40),
-      dict(name="TestC20List", quick=5000, thorough=20000, steps=30)],
+      dict(name="TestC20List", quick=5000, thorough=20000, steps=30),
+      dict(name="FuzzC20Table", pkg="ntcheck", fuzz=60)],
      rule="rapid state machines. Table: Update/Get/Remove over keys of 0-3 symbols from {a,b,c}, hash drawn from {constant, len mod 2, first byte mod 3, crc32}; "
           "oracle map[key]pointer for every result, ItemsCount == len, MemoryInUse == 42*len after every step. Non-trivial: a fast-table entry was removed while its "
           "bucket had overflow entries and a key of that bucket was added afterwards. List: Add (new nodes, several with equal key bytes, and re-adding removed nodes), "
